@@ -19,6 +19,13 @@ def run(ctx):
     r1(ctx)
     r2(ctx)
     r3(ctx)
+    # the numbers in the record: Response.write's accounting evaluated row by row (the write table of C02.R1 under
+    # this property); one record per request: a request object never reaches handle_error twice (C05.R2 stale request)
+    from . import c02, c05
+    from .common import MultiAlias
+    c02.write_table(ctx, "C19.R2")
+    c05.stale_request(MultiAlias(ctx, {"C05.R2": "C19.R1"}))
+    c05.stale_to_handle_error(MultiAlias(ctx, {"C05.R2": "C19.R1"}))
 
 
 def _access_calls(repo, f):
@@ -67,6 +74,7 @@ def r1(ctx):
     from . import c05
     from .common import MultiAlias
     c05.stale_request(MultiAlias(ctx, {"C05.R2": "C19.R1"}))
+    c05.stale_to_handle_error(MultiAlias(ctx, {"C05.R2": "C19.R1"}))
     he = ctx.fn(repo.func("gunicorn.workers.base.Worker.handle_error"))
     acc = _access_calls(repo, he)
     ctx.check("C19.R1", len(acc) == 1, key(he, "one-access-call"), site(he), "%d access-log calls in handle_error (at most one record per rejected request)" % len(acc), "one log.access")
